@@ -614,7 +614,7 @@ class C02(Prop):
                        "double triggers, post-processed with opposite-kind second triggers + ok/value/defused queries and falsy "
                        "values; non-trivial = an event processed with >= 2 process waiters, or a failure thrown into a process, or a "
                        "rejected trigger, and >= 5 processed events; distinct by hash of the case")
-    trusted_base = ["vlib/translate.py (Python ast, fail closed; observation/effect tables in props/kernel_tie.py) regenerates coq/Gen/Extracted_kernel.v from the kernel leaves of the tree under test (Environment.schedule/peek/step, Event.succeed/fail/defused, Timeout/Initialize/Interruption.__init__, Interruption._interrupt, Process.interrupt) before every build; the C02_gen_* theorems (Props/C02_Bridge.v) bridge them to Kernel/Model.v; step()'s heappop try/except, its callback loop and peek()'s try/except are whitelisted as one statement each; Process._resume is not translated",
+    trusted_base = ["vlib/translate.py (Python ast, fail closed; observation/effect tables in props/kernel_tie.py) regenerates coq/Gen/Extracted_kernel.v from the kernel leaves of the tree under test (Environment.schedule/peek/step, Event.succeed/fail/defused, Timeout/Initialize/Interruption.__init__, Interruption._interrupt, Process.interrupt) before every build; the C02_gen_* theorems (Props/C02_Bridge.v) bridge them to Kernel/Model.v; step()'s heappop try/except, its callback loop and peek()'s try/except are whitelisted as one statement each; Event.trigger is tied to the model definition Kernel/Trigger.v (the kernel model itself leaves it out); Process._resume: see C04",
                     "kernel harness props/kernel_common.py (real generators on the real Environment, events named by creation index) "
                     "and this plugin's instrumentation (generator proxy around process bodies, wrappers of env.schedule/env.step as "
                     "instance attributes; nothing in /repo is touched)",
